@@ -215,5 +215,8 @@ def main(ctx):
     ctx.extra['mir'] = info
     ctx.bounds.append('all acyclic paths of validate_key_binding_jwt (171 blocks), SD-JWT verify_signature and validate_credential; callee results unconstrained')
     ctx.outside += ['SdObjectDecoder::decode (disclosure hashing, third-party)', 'real hashing / signatures', 'JSON parsing',
-                    'parse_jwk and validate_decoded_credential are decided under C02 and reused here']
+                    ]
     guarded(ctx, 'sd-jwt audit', 'M', lambda: run(ctx, prog))
+    # the issuer signature is selected and checked by the same parse_jwk / verify_decoded_signature as a plain JWT credential: C02's obligations, re-used
+    import c02
+    guarded(ctx, 'issuer key selection (shared with plain JWT credentials)', 'M', lambda: c02.run(ctx, prog, only=r'^parse_jwk/|^verify_decoded_signature/'))
